@@ -67,6 +67,18 @@ ContainerOrdered == \A k \in ContainerCases : LET w == ContainerWords(k) IN
    /\ (k.ctx = "arc" => w.ctx_at < w.tmp_at) /\ (k.tmp = "objref" => w.tmp_at < w.words)
 ASSUME ContainerOrdered
 
+(* the container of a GROUP (words counted from the start of the group object: one vtable pointer per member trait comes   *)
+(* first): instance, context, then one block of temporary storage per member trait - the mandatory traits' blocks in name  *)
+(* order, THEN the optional traits' blocks in name order (the order of the vtable pointers; not all names merged).  The    *)
+(* case: mandatory ZHold, optional AHold - the optional name sorts first -, each with one method returning a wrapped       *)
+(* reference; a block is only visible when it is non-empty, so both have one.                                              *)
+HoldBlocks == <<"ZHold">> \o <<"AHold">>
+GroupContWords(c) ==
+  LET base == 2 + InstWords["box"] IN
+  [inst_at |-> 2, ctx_at |-> base,
+   tmp_at |-> [t \in {"ZHold", "AHold"} |-> base + CtxWords[c] + (CHOOSE k \in 1..2 : HoldBlocks[k] = t) * TmpWords("objref", c) - TmpWords("objref", c)],
+   words |-> base + CtxWords[c] + 2 * TmpWords("objref", c)]
+
 (* all listing orders of a set *)
 Perms(S) == {s \in [1..Cardinality(S) -> S] : \A i, j \in 1..Cardinality(S) : i # j => s[i] # s[j]}
 
@@ -92,5 +104,6 @@ Init == done = FALSE
 Next == UNCHANGED done
 Emit == PrintT(<<"REPLAY", ToJson([traits |-> [t \in Names |-> VtblLayout(t)], decls |-> [t \in Names |-> Pool[t]],
                                     containers |-> {[case |-> k, at |-> ContainerWords(k)] : k \in ContainerCases},
+                                    groupconts |-> {[ctx |-> c, at |-> GroupContWords(c)] : c \in {"none", "arc"}},
                                     groups |-> {[listing |-> l, layout |-> GroupLayout(l.mand, l.opt)] : l \in Listings}])>>)
 =============================================================================
